@@ -290,7 +290,7 @@ PROPS['C20'] = {
            + [{'src': 'harness/dispatch.cpp', 'prefix': 'C05/', 'variants': _ALL12, 'tier': 'thorough', 'defs': ['VERIF_QUEUE', 'VERIF_SUB=%d' % i, 'VERIF_FULL=0']} for i in (0, 2, 3)],
     'rule': 'configuration product: the generated program sets of C01 (CallbackList/EventDispatcher flat and nested), C04 (dispatch type-matrix cells), C05 (EventQueue flat and nested-consume) and C10 (object pools of 6 container types) are compiled and explored under compilers {g++ 12, clang++ 14} x {-O0/-O1, -O2} x -std={c++11, c++14, c++17, c++20} (C04 cells: c++14 and later) x Threading {SingleThreading, injected V-policy, SpinLock, std::mutex} x Map {std::unordered_map, std::map, user template} x Callback {std::function, comparable functor} x prior memory {0xFF, 0x00, 0xA5}; every configuration must agree with the reference model on every execution AND the hash of the complete observable trace of the whole exploration must be identical for all configurations of a program set; distinct = distinct per-execution observation hashes',
     'assumptions': ['compilers limited to the two installed (libstdc++ only); MSVC-specific paths and the __GNUC__ < 5 variant of CallbackList::operator() are not compiled', 'the uninitialised-state clause is made deterministic by pre-filling object storage with three byte patterns (no MemorySanitizer run: its uninstrumented libstdc++ would raise false reports)'] + H_ASSUME[:1],
-    'bounds': {'quick': '4 corner build configurations {g++ c++11 -O2, g++ c++17 -O0, clang++ c++11 -O0, clang++ c++20 -O2} x list/queue/pool program sets (depth 3-5) + std::string dispatch cells under g++/clang++ c++14', 'thorough': 'all 16 build configurations x all program sets (depth 4-7), 12 for the dispatch cells'},
+    'bounds': {'quick': '4 corner build configurations {g++ c++11 -O2, g++ c++17 -O0, clang++ c++11 -O0, clang++ c++20 -O2} x list/queue/pool program sets (depth 3-5) + std::string dispatch cells under g++/clang++ c++14', 'thorough': 'all 16 build configurations x all program sets (depth 4-6), 12 for the dispatch cells'},
     'technique': 'bounded exhaustive exploration of identical generated programs under a product of build and policy configurations, with cross-configuration comparison of the complete observable trace',
     'cross_config': _c20_group,
     'deadline': {'quick': 300, 'thorough': 2400},
